@@ -25,29 +25,10 @@ def theorem_names():
 
 
 # ------------------------------------------------------------------ harness helpers
-HARNESS_FILES = ["main.go", "prng.go", "util.go", "vir.go", "irgen.go", "c06_*.go"]
-
-
 def build_c06_harness():
-    """the C06 streams need only a few files of /verif/harness: build exactly those (overlay into the
-    cog module, like verifkit.core.build_go), so that an unrelated stream under construction in the
-    shared harness directory cannot break this check"""
-    import glob as _glob
-    name = "c06harness"
-    os.makedirs(BIN, exist_ok=True)
-    with Lock("gobuild-" + name):
-        rep = {}
-        for pat in HARNESS_FILES:
-            for f in sorted(_glob.glob(os.path.join(VERIF, "harness", pat))):
-                rep[os.path.join(REPO, "cmd", name, os.path.basename(f))] = f
-        ov = os.path.join(WORK, "overlay-%s.json" % name)
-        with open(ov, "w") as fh:
-            json.dump({"Replace": rep}, fh)
-        out = os.path.join(BIN, name)
-        p = run(["go", "build", "-overlay", ov, "-o", out, "./cmd/" + name], cwd=REPO, env=GOENV)
-        if p.returncode != 0:
-            return None, p.stderr
-        return out, ""
+    """harness binary scoped to the files the C06 streams need (an unrelated stream under construction
+    in the shared harness directory cannot break this check); built from verifkit.core.REPO"""
+    return build_go("verifharness", "harness", files=HARNESS_BASE + ["c06_*.go"], tag="c06")
 
 
 def eval_requests(hb, reqs, nf=False):
